@@ -30,3 +30,4 @@ run H8_optimizer_select_reordered C05
 run H9_tokenizer_push_condition_reordered C01 C02
 run H10_enable_tags_union_other_way C06 C07
 run H11_removeparam_renames_reorder C14
+run H12_matchers_reordered C02
